@@ -537,7 +537,9 @@ def random_case(rng, i):
         elif r < 0.30 and a != b:
             a, b = b, a                                         # ill-ordered box: the code lets lb win
         lb.append(a); ub.append(b)
+    perturbed = False
     if U and rng.random() < 0.3:
+        perturbed = True
         # candidates within rounding distance of a finite bound, on either side (a refined mesh next to a bound): a point outside the box by
         # 1e-9 is outside (dropped when proj=False, projected when proj=True), never "close enough"
         for _ in range(rng.choice([1, 2])):
@@ -555,8 +557,15 @@ def random_case(rng, i):
         else:
             log.append([rng.choice(alpha) for _ in range(D)])
     cons = rng.choice([None, None, "ball", "half"])
-    return dict(stream="random", D=D, U=U, oneD=oneD, lb=lb, ub=ub, proj=proj, tol=tol, cons=cons,
-                vt="affine" if cons else rng.choice(["none", "affine"]), log=log)
+    c = dict(stream="random", D=D, U=U, oneD=oneD, lb=lb, ub=ub, proj=proj, tol=tol, cons=cons,
+             vt="affine" if cons else rng.choice(["none", "affine"]), log=log)
+    if perturbed and cons:
+        # the model evaluates the constraint exactly, the code in binary64: a row moved by 1e-9 may sit within rounding distance of the
+        # constraint's boundary (|x|^2 = 4 + 1e-18 is 4.0 in floats) - such a case decides nothing about the filter; drop the constraint
+        rows = [clamp_row(u, lb, ub) for u in U] + [list(u) for u in U]
+        if cons_margin(c, rows) <= 1e-9:
+            c["cons"] = None
+    return c
 
 
 def table_case(rng, i):
